@@ -77,11 +77,13 @@ pub fn plan<'a>(ctx: &'a Ctx, rng: &mut Rng, tier: Tier) -> Plan<'a> {
                 cases.extend(cross_flags(rng, pl, &few, 1));
             }
             cases.extend(cross_flags(rng, &pools.random, &few, 1));
+            let sets = gen::class_sets(rng, quick);
+            cases.extend(cross_flags(rng, &sets, &[0, mask(&[BIT_ESC]), mask(&[BIT_CAP, BIT_VERB])], 1));
             Plan {
                 cases,
                 judge: Box::new(move |c, b| judge::judge_exact(classes, c, b)),
                 stages: false,
-                explanation: "language of the output equals the set of test cases, decided symbolically over all of Unicode (dense DFA product); all 32 subsets of the presentation-neutral settings on every non-empty subset of {a,b}^<=3 of size <=3 (thorough: <=4)".into(),
+                explanation: "language of the output equals the set of test cases, decided symbolically over all of Unicode (dense DFA product); character-class families (single code points at neighbour / page / plane distances); all 32 subsets of the presentation-neutral settings on every non-empty subset of {a,b}^<=3 of size <=3 (thorough: <=4)".into(),
                 exhaustive: true,
             }
         }
@@ -97,11 +99,33 @@ pub fn plan<'a>(ctx: &'a Ctx, rng: &mut Rng, tier: Tier) -> Plan<'a> {
                     cases.push(Case { tcs: t, cfg: Cfg::new(cls | extra[k % 4]) });
                 }
             }
+            // every boundary of the regex crate's own \s table (22 code points), and a seeded sample of the
+            // boundaries of \d and \w (thorough: all of them), alone and next to a letter, under each single option
+            // and under all six together
+            let mut edge: Vec<char> = crate::oracle::Classes::boundaries(r"\s");
+            for which in [r"\d", r"\w"] {
+                let all = crate::oracle::Classes::boundaries(which);
+                let take = if quick { 60 } else { all.len() };
+                let mut picked: Vec<char> = (0..take).map(|i| if quick { all[rng.below(all.len())] } else { all[i] }).collect();
+                picked.push(*all.first().unwrap());
+                picked.push(*all.last().unwrap());
+                picked.push(all[all.len() - 2]);
+                edge.extend(picked);
+            }
+            edge.sort();
+            edge.dedup();
+            for c in edge {
+                if c == '\u{0}' { continue; }
+                for cls in [1u32, 2, 4, 8, 16, 32, 63] {
+                    cases.push(Case { tcs: vec![c.to_string()], cfg: Cfg::new(cls) });
+                    cases.push(Case { tcs: vec![format!("a{}", c), "a".to_string()], cfg: Cfg::new(cls) });
+                }
+            }
             Plan {
                 cases,
                 judge: Box::new(move |c, b| judge::judge_exact(classes, c, b)),
                 stages: false,
-                explanation: "all 64 subsets of the six class options; language compared with the alternation of per-character class sequences built from the regex crate's own classes with the documented precedence".into(),
+                explanation: "all 64 subsets of the six class options on words over a mixed alphabet, plus the boundary code points of the regex crate's own \\d/\\s/\\w tables under each option; language compared with the alternation of per-character class sequences built from the regex crate's own classes with the documented precedence".into(),
                 exhaustive: false,
             }
         }
